@@ -228,6 +228,7 @@ impl Kind for Str {
 
 /// Large values (128 bytes): a one-slot overwrite is far outside any neighbouring slot.
 #[derive(Clone, PartialEq, Debug)]
+#[repr(align(32))]
 pub struct Big(pub [u64; 16]);
 impl Default for Big {
     fn default() -> Self {
